@@ -37,17 +37,22 @@ func Satisfies(testExpression string, allowedList []string) (bool, error) {
 	}
 	sortAndDedup(allowedNodes)
 
-	expandedExpression := expressionNode.expand(true)
+	return expressionNode.isSatisfiedBy(allowedNodes), nil
+}
 
-	for _, expressionPart := range expandedExpression {
-		if isCompatible(expressionPart, allowedNodes) {
-			// return once any expressionPart is compatible with the allow list
-			// * each part is an array of licenses that are ANDed, meaning all have to be on the allowedList
-			// * the parts are ORed, meaning only one of the parts need to be compatible
-			return true, nil
-		}
+// isSatisfiedBy evaluates the expression tree against the allowed licenses: an AND expression
+// needs both operands satisfied, an OR expression needs either one, and a license or license
+// reference needs a compatible license in allowed.  The answer is the same as testing every
+// part of expand() with isCompatible, but the number of parts grows exponentially with the
+// number of ORed groups that are ANDed together, so the expansion is not built here.
+func (n *node) isSatisfiedBy(allowed []*node) bool {
+	if n.isAndExpression() {
+		return n.left().isSatisfiedBy(allowed) && n.right().isSatisfiedBy(allowed)
 	}
-	return false, nil
+	if n.isOrExpression() {
+		return n.left().isSatisfiedBy(allowed) || n.right().isSatisfiedBy(allowed)
+	}
+	return isCompatible([]*node{n}, allowed)
 }
 
 // stringsToNodes converts an array of single license strings to to an array of license nodes.
